@@ -296,14 +296,36 @@ class C19Other(Exception):
     pass
 
 
+class _C19LazyTypes(dict):
+    """`C19Late` is an error class of the library's own hierarchy that comes into existence only when it is first raised (a task
+    module imported after the application has been running for a while): it is created on first lookup"""
+
+    def __missing__(self, key):  # type: ignore[no-untyped-def]
+        if key != "C19Late":
+            raise KeyError(key)
+        return c19_late_cls()
+
+
+_C19_LATE: list = []
+
+
+def c19_late_cls():  # type: ignore[no-untyped-def]
+    if not _C19_LATE:
+        from pynenc.exceptions import RetryError
+
+        _C19_LATE.append(type("C19Late", (RetryError,), {"__module__": __name__}))
+        globals()["C19Late"] = _C19_LATE[0]
+    return _C19_LATE[0]
+
+
 def c19_exc_types() -> dict:
     from pynenc.exceptions import ConcurrencyRetryError, RetryError
 
-    return {
+    return _C19LazyTypes({
         "C19Err": C19Err, "C19SubErr": C19SubErr, "C19Other": C19Other, "ValueError": ValueError,
         "KeyError": KeyError, "LookupError": LookupError, "RetryError": RetryError,
         "ConcurrencyRetryError": ConcurrencyRetryError, "Exception": Exception,
-    }
+    })
 
 
 C19_RUNS: dict = {}  # token -> state of one program run (see c19_new_run)
@@ -387,7 +409,17 @@ def _c19_run_body(st: dict, spec: dict, token: str, key: str, k: int) -> int:
             if call["direct"]:
                 total += st["dgroup"][cls]({"members": members}, token, ckey)
             else:
-                grp = st["plain"][cls].parallelize([(m, token, f"{ckey}.{i}") for i, m in enumerate(members)])
+                # the same group in one of the three spellings `parallelize` accepts (tuples; keyword dicts; keyword dicts over
+                # `common_args`, where the earlier members override the common key and the last one relies on it)
+                n_m = len(members)
+                how = (int(members[0]["id"]) + n_m) % 3      # varies with the program, the same on every stack
+                if how == 0:
+                    grp = st["plain"][cls].parallelize([(m, token, f"{ckey}.{i}") for i, m in enumerate(members)])
+                elif how == 1:
+                    grp = st["plain"][cls].parallelize([{"key": f"{ckey}.{i}", "spec": m, "token": token} for i, m in enumerate(members)])
+                else:
+                    grp = st["plain"][cls].parallelize([({"spec": m, "key": f"{ckey}.{i}"} if i < n_m - 1 else {"spec": m}) for i, m in enumerate(members)],
+                                                       common_args={"token": token, "key": f"{ckey}.{n_m - 1}"})
                 with st["lock"]:
                     st["invs"].extend(grp.invocations)
                 vals = list(grp.results)
